@@ -247,7 +247,10 @@ def build (kind, rng):
         l.length = 4
       l.payload = payload[:100]
     else:
-      l.dsap = 0xaa; l.ssap = 0xaa; l.control = 3; l.length = 8
+      # (the low bit of the DSAP marks a group address, that of the SSAP a
+      #  response: SNAP all the same)
+      l.dsap = rng.choice([0xaa, 0xaa, 0xab]); l.ssap = rng.choice([0xaa, 0xaa, 0xab])
+      l.control = 3; l.length = 8
       l.oui = rng.choice([b"\0\0\x0c", b"\x08\0\x07"])
       l.eth_type = rint(rng, 16)
       l.payload = payload[:100]
